@@ -120,15 +120,18 @@ func (k Keeper) IterateConsensusStates(
 	for ; iterator.Valid(); iterator.Next() {
 		key := iterator.Key()
 
-		keySplit := strings.Split(string(key), "/")
-		// consensus key is in the format "clients/<chainName>/consensusStates/<height>"
-		if len(keySplit) != 4 || keySplit[2] != string(host.KeyConsensusStatePrefix) {
+		// consensus key is in the format "clients/<chainName>/consensusStates/<height>" where
+		// <height> is 16 raw big-endian bytes that may themselves contain '/': only the chain
+		// name is delimited by '/', the height is taken by its fixed length
+		keySplit := strings.SplitN(string(key), "/", 3)
+		if len(keySplit) != 3 {
 			continue
 		}
 		chainName := keySplit[1]
-		//revinum := sdk.BigEndianToUint64(key[35:43])
-		//revihei := sdk.BigEndianToUint64(key[44:])
-		heightBytes := keySplit[3]
+		heightBytes := strings.TrimPrefix(keySplit[2], host.KeyConsensusStatePrefix+"/")
+		if len(heightBytes) != 16 || len(keySplit[2]) != len(host.KeyConsensusStatePrefix)+1+16 {
+			continue
+		}
 		revisionUint64 := binary.BigEndian.Uint64([]byte(heightBytes[:8]))
 		heightUint64 := binary.BigEndian.Uint64([]byte(heightBytes[8:]))
 		height := types.MustParseHeight(fmt.Sprintf("%d-%d", revisionUint64, heightUint64))
